@@ -5,6 +5,7 @@ import (
 	"fmt"
 	"os"
 
+	"verif/engine/asmbmc"
 	"verif/engine/gosym"
 )
 
@@ -31,6 +32,11 @@ func main() {
 	fs.Parse(os.Args[2:])
 	if env := os.Getenv("VERIF_TIER"); env != "" && !flagSet(fs, "tier") {
 		*tier = env
+	}
+	if prop == "C08" {
+		seed := 0
+		fmt.Sscanf(os.Getenv("VERIF_SEED"), "%d", &seed)
+		os.Exit(asmbmc.Run(asmbmc.Opts{Tier: *tier, VerifDir: *verifDir, Seed: seed}))
 	}
 	os.Exit(gosym.RunProperty(gosym.RunOpts{Property: prop, Tier: *tier, Only: *only, VerifDir: *verifDir, Workers: *workers, Verbose: *verbose, NoReplay: *noReplay}))
 }
